@@ -5,6 +5,7 @@ Scenario:    ri rev shuffle seed repeat route real  nT (group name ignored)*  nG
              are used (the rand list is then the stream libc gives for that seed, computed here through ctypes).
 Observation: (:rep nOrd id* nS seed* nR rand* nW event* tests run ignored filtered)*  :tot nT count*      (see harness/C02.cpp)"""
 import ctypes
+import itertools
 from vlib import tz, tb
 ID = "C02"
 FLAVOURS = ["asan"]
@@ -13,7 +14,8 @@ RULE = ("registries of 0-200 scripted tests (normal and IGNORE_TEST mixed) with 
         "high-bit and dotted strings) so that substring filters hit, miss, equal a name or are longer than it; 0-4 group and 0-4 name "
         "filters of all four kinds (substring / strict / inverted / inverted strict), patterns drawn from the registry's own strings, "
         "their substrings and extensions; run-ignored on/off; reverse; shuffling with scripted rand() streams aimed at the loop's "
-        "boundaries (j = i, j = 0, j = i - 1, RAND_MAX, exhausted stream) and with the platform's real srand/rand for seeds 1..N; "
+        "boundaries (j = i, j = 0, j = i - 1, RAND_MAX, exhausted stream), exhaustively every residue tuple for 2-5 tests, and with the "
+        "platform's real srand/rand for seeds 1..50 (quick) / 1..2000 (thorough) x sizes {0,1,2,3,7,64}; "
         "repeat 1-4 (reshuffle per repetition); every configuration through the API and through CommandLineTestRunner argv. "
         "non-trivial = at least two tests and (a filter, or reverse, or shuffle, or an ignored test)")
 ASSUMPTIONS = ["group, name and filter strings are C strings (no NUL byte)",
@@ -247,9 +249,19 @@ def filter_grid():
     return out
 
 
+def exhaustive_shuffles():
+    """every residue tuple of the Fisher-Yates loop for 2..5 tests: every permutation the loop can produce"""
+    out = []
+    for n in range(2, 6):
+        tests = [(b"g%d" % (i % 2), b"t%d" % i, 0) for i in range(n)]
+        for tup in itertools.product(*[range(i + 1) for i in range(n - 1, 0, -1)]):
+            out.append(fmt(0, n % 2, 1, 1, 1, 0, 0, tests, [], [], list(tup)))
+    return out
+
+
 def generate(tier, rng):
     quick = tier == "quick"
-    out = filter_grid()
+    out = filter_grid() + exhaustive_shuffles()
     out += seed_sweep(rng, range(1, 51 if quick else 2001), [0, 1, 2, 3, 7, 64])
     n = 2500 if quick else 60000
     big = 64 if quick else 200
@@ -452,11 +464,20 @@ def shrink(s):
             yield variant(tests=d["tests"][:i] + [(g, nm[:-1], ig)] + d["tests"][i + 1:])
 
 
-LEVEL_TEXT = ("Machine-checked (Coq) theorems over an executable model of TestRegistry::runAllTests (count, filter, run, group boundaries), "
-              "UtestShell::match/shouldRun over TestFilter lists with TestFilter::match on the C13 models of StrStr/StrCmp, IgnoredUtestShell, "
-              "the four TestResult counters, and UtestShellPointerArray's swap / Fisher-Yates shuffle / reverse / relink with bounds-checked "
-              "indexing, driven by the reverse-shuffle-repeat loop of CommandLineTestRunner.")
-LEVEL_NOTE = ("Trusted: Coq kernel, extraction, harness, generator. Modelled not verified: the C++ itself; the linked list is the Coq list it "
-              "denotes. The platform's rand() is scenario input (recorded stream).")
-TECHNIQUE = "Coq proof over hand-written executable model + extracted-model/implementation correspondence check (differential)"
-READY = False
+LEVEL_TEXT = ("Machine-checked (Coq) theorems over an executable model of TestRegistry::addTest/runAllTests/endOfGroup/testShouldRun (count, filter, "
+              "run, group boundaries), UtestShell::match/shouldRun over TestFilter lists with TestFilter::match on the C13 models of StrStr/StrCmp, "
+              "IgnoredUtestShell::runOneTest, the four TestResult counters, UtestShellPointerArray (constructor, swap, Fisher-Yates shuffle, reverse, "
+              "relink; bounds-checked indexing) and the reverse / shuffle-per-repetition / repeat loop of CommandLineTestRunner::runAllTests: for "
+              "every list, filter lists, flags and rand() stream the counters satisfy tests = run + ignored + filtered = number of tests, every "
+              "selected test is started exactly once (its body once unless counted as ignored), selection is the declarative 'some filter of each "
+              "given list accepts' with substring = exists pre post / equality / negation, shuffle never indexes outside the array and yields a "
+              "permutation, reverse = rev, relink = identity, group notifications are balanced with every test inside a segment of its own group. "
+              "Tied to the code by a differential run of the extracted model against a real TestRegistry (API and argv routes, scripted and real "
+              "rand()), with the extracted model-free spec and an independent Python judge evaluating the implementation's observation.")
+LEVEL_NOTE = ("Trusted: Coq kernel, extraction, harness, generator. Modelled not verified: the C++ itself; the singly linked list is the Coq list it "
+              "denotes (cons = addTest), so aliasing effects of relinking are seen only by the harness (list walk bounded by the number of tests). "
+              "The platform's rand() is scenario input (the stream libc gives for the seed is computed by the generator and compared with the calls "
+              "the harness records). Exact shuffled order and the srand/rand calls are compared model-vs-implementation but not demanded by the "
+              "oracle (any permutation satisfies the property). Translation of argv into filter lists is C12's subject; here argv is only a route.")
+TECHNIQUE = "Coq proof over hand-written executable model + extracted-model/implementation correspondence check (differential, exhaustive small shuffles and filter grid)"
+READY = True
